@@ -96,6 +96,8 @@ def generate(tier, rng):
             cases.append({"op": "validate", "tier": t, "corrupt": corrupt, "scale": sc})
     for _ in range(300 if tier == "quick" else 8000):
         t = gen.random_itier(rng, tmax=30, maxn=5) if rng.random() < 0.6 else gen.random_ptier(rng, tmax=30, maxn=5)
+        if rng.random() < 0.15:
+            t["entries"] = []
         cases.append({"op": "equality", "tier": t, "seed": rng.randint(0, 10**9), "scale": list(rng.choice(gen.SCALES_DYADIC))})
     return cases
 
@@ -187,7 +189,20 @@ def _equality(case, sc):
         other._entries[0] = big
         if t == other:
             fails.append("== does not distinguish a timestamp changed by 1e-6 relative")
-    other_kind = dict(spec)
+    # the tier type is part of a tier's identity, entries or not
+    if spec["kind"] == "I":
+        other_kind = dict(spec, kind="P", entries=[[e[0], e[2]] for e in spec["entries"]])
+    else:
+        other_kind = dict(spec, kind="I", entries=[])
+    if spec["kind"] == "I" or not spec["entries"]:
+        u = core.mk_tier(other_kind, sc)
+        if (t == u) or (u == t):
+            fails.append("== does not distinguish an IntervalTier from a PointTier with the same name, span and %d entries" % len(spec["entries"]))
+        tga, tgb = Textgrid(), Textgrid()
+        tga.addTier(core.mk_tier(spec, sc))
+        tgb.addTier(u)
+        if tga == tgb or tgb == tga:
+            fails.append("Textgrid == does not distinguish the type of a tier")
     tg1, tg2 = Textgrid(), Textgrid()
     tg1.addTier(t)
     tg2.addTier(core.mk_tier(spec, sc))
